@@ -805,6 +805,9 @@ theorem apply_noDec {s s' : St} {o : Op} (e : apply s o = .ok s')
     · subst hp; exact absurd rfl (h3 au ra hh rev a rw)
   | obsolete au vs => exact (markObsolete_tok e).noDec
   | punish au a rw => exact absurd rfl (h5 au a rw)
+  | transferOwner sg ra' no =>
+    obtain ⟨r, hg, _, _, _, rfl⟩ := transferOwner_ok e
+    exact (TokFrame.of_seqs rfl).noDec
   | begin_ dt => simp only [apply] at e; injection e with e; subst e; exact (TokFrame.of_seqs (beginBlock_seqs' s dt)).noDec
   | end_ f => exact absurd rfl (h4 f)
 
